@@ -22,19 +22,19 @@ def gen_cases(tier, seed):
     k = 0
     rows = C.pairwise(seed=seed + 1)
     fams = ["QP", "NLP", "QP", "NLP", "DEG", "QP"]
-    reps = 3 if tier == "quick" else 40
+    reps = 3 if tier == "quick" else 12
     for rep in range(reps):
         for row in rows:
             fam = fams[k % len(fams)]
             cases.append(_case(rng, fam, [seed, k], dict(row)))
             k += 1
-    nrand = 380 if tier == "quick" else 22000
+    nrand = 380 if tier == "quick" else 7000
     for _ in range(nrand):
         fam = str(rng.choice(["QP", "NLP", "DEG", "BAND"], p=[0.4, 0.4, 0.15, 0.05]))
         c = C.sample(rng) if rng.random() < 0.6 else dict(C.DEFAULT, scaling=str(rng.choice(C.SCALING)))
         cases.append(_case(rng, fam, [seed, k], c))
         k += 1
-    nint = 40 if tier == "quick" else 700
+    nint = 40 if tier == "quick" else 400
     for _ in range(nint):
         fam = str(rng.choice(["QP", "NLP"]))
         c = {"scaling": str(rng.choice(["none", "none", "custom", "GradJac"])),
